@@ -64,4 +64,4 @@ def signature(ops, k, key, impl_line, spec_line):
     return "clause=" + key
 
 # further models / theorems / correspondences for code around this property (see DESIGN.md §13.6)
-SUBCHECKS = ["C20K", "C20S"]
+SUBCHECKS = ["C20K", "C20S", "C20E"]
